@@ -123,19 +123,23 @@ theorem apK_pack {j k : Nat} (hj : j < 65536) (hk : k < 65536) : apK (j ||| (k <
 theorem small_table : ∀ k, k ≤ 7 → ∀ j, j ≤ k →
     smallAllelePair[gtIndex j k]? = some (j ||| (k <<< 16)) := by decide
 
+theorem small_lookup {j k : Nat} (hj : j ≤ k) (hlt : gtIndex j k < 36) :
+    smallAllelePair[gtIndex j k]? = some (j ||| (k <<< 16)) := by
+  have hk7 : k ≤ 7 := by
+    by_contra hc
+    have h8 : 8 ≤ k := by omega
+    have := tri_mono h8
+    have e : 8 * (8 + 1) / 2 = 36 := by decide
+    unfold gtIndex at hlt; omega
+  exact small_table k hk7 j hj
+
 theorem gtAllelePair_gtIndex {j k : Nat} (hj : j ≤ k) (hk : k < 65536) :
     gtAllelePair (gtIndex j k) = some (j ||| (k <<< 16)) := by
   unfold gtAllelePair
   split
   next hlt =>
-    have hk7 : k ≤ 7 := by
-      by_contra hc
-      have h8 : 8 ≤ k := by omega
-      have := tri_mono h8
-      have e : 8 * (8 + 1) / 2 = 36 := by decide
-      have : smallAllelePair.length = 36 := by decide
-      unfold gtIndex at hlt; omega
-    exact small_table k hk7 j hj
+    have : smallAllelePair.length = 36 := by decide
+    exact small_lookup hj (by omega)
   next =>
     unfold allelePairSqrt
     simp only [triRoot_gtIndex hj]
@@ -181,23 +185,27 @@ theorem encodeRaw_inRange {c : Call} (h : InRange c) : encodeRaw c = some (wordO
   | [], true, _ => rfl
   | [a], false, _ =>
     simp only [encodeRaw, wordOf, alleleReprOf, List.length_cons, List.length_nil]
-    rw [show (0 ||| (0 + 1) <<< 1) = 2 from rfl]
+    rw [show tagBits (0 + 1) false = 2 from rfl]
     simp [lor_shl3 2 a (by omega)]
   | [a], true, _ =>
     simp only [encodeRaw, wordOf, alleleReprOf, List.length_cons, List.length_nil]
-    rw [show (0 ||| (0 + 1) <<< 1) = 2 from rfl]
-    simp [show (2 ||| 1) = 3 from rfl, lor_shl3 3 a (by omega)]
+    rw [show tagBits (0 + 1) true = 3 from rfl]
+    simp [lor_shl3 3 a (by omega)]
   | [j, k], false, h =>
     have hjk : j ≤ k := h.1
     simp only [encodeRaw, wordOf, alleleReprOf, allelePairRep, diploidGtIndex, List.length_cons,
       List.length_nil]
-    rw [show (0 ||| (0 + 1 + 1) <<< 1) = 4 from rfl]
+    rw [show tagBits (0 + 1 + 1) false = 4 from rfl]
     simp [hjk, lor_shl3 4 _ (by omega)]
   | [j, k], true, _ =>
     simp only [encodeRaw, wordOf, alleleReprOf, allelePairRep, diploidGtIndex, List.length_cons,
       List.length_nil]
-    rw [show (0 ||| (0 + 1 + 1) <<< 1) = 4 from rfl]
-    simp [show (4 ||| 1) = 5 from rfl, lor_shl3 5 _ (by omega)]
+    rw [show tagBits (0 + 1 + 1) true = 5 from rfl]
+    simp [lor_shl3 5 _ (by omega)]
+
+theorem tagBits_lt {p : Nat} (ph : Bool) (hp : p ≤ 2) : tagBits p ph < 6 := by
+  have : p = 0 ∨ p = 1 ∨ p = 2 := by omega
+  rcases this with rfl | rfl | rfl <;> cases ph <;> decide
 
 theorem wordOf_lt {c : Call} (h : InRange c) : wordOf c < 2 ^ 32 := by
   have := alleleReprOf_lt h
